@@ -112,6 +112,7 @@ func (w *rqWorld) request(name string, proc uint32, args []byte, summarize func(
 func (w *rqWorld) call(name string, rp *rqReply, proc uint32, args []byte, summarize func(res *wire.NFSRes) string) {
 	who := vsched.CurrentName()
 	w.ev("start", who)
+	vsched.Advance(time.Microsecond) // minimal-TTL cache entries of the set-up have expired: the request goes to the backend
 	// a private client (own xid counter) so that threads do not share harness state
 	xid := uint32(0x5000 + len(w.events))
 	msg := wire.Call(xid, wire.ProgNFS, 3, proc, w.e.cred, args)
